@@ -125,6 +125,13 @@ func NearNumber(rng *rand.Rand, m int64, frac int, wantInt bool) string {
 
 // RandBound draws a bound as (mantissa, fraction digits).
 func RandBound(rng *rand.Rand) (int64, int) {
+	if rng.IntN(25) == 0 { // magnitudes around the machine-word and float64-mantissa boundaries
+		m := pick(rng, []int64{1 << 31, 1 << 32, 1 << 53, 1<<63 - 1, 999999999999999999, 1000000000000000000}) - int64(rng.IntN(3))
+		if rng.IntN(2) == 0 {
+			m = -m
+		}
+		return m, 0
+	}
 	switch rng.IntN(6) {
 	case 0:
 		return 0, 0
@@ -161,6 +168,10 @@ type Gen struct {
 	nodes       int
 	MaxNodes    int
 	keySeq      int
+	wideObj     int // when > 0 the next Object() gets this many members (once)
+	wideArr     int // when > 0 the next Array() gets this many items (once)
+	calm        bool
+	baseCalm    bool
 }
 
 type EnumInfo struct {
@@ -328,6 +339,9 @@ func (g *Gen) Scalar(inObject bool) *Node {
 	if !g.ValueFocus && rng.IntN(3) == 0 {
 		shape = 99 // no rules at all
 	}
+	if g.calm && rng.IntN(8) != 0 {
+		shape = 99 // the many members of a wide container are mostly plain, so that the whole is usually accepted
+	}
 	switch kind {
 	case KString:
 		switch {
@@ -340,7 +354,7 @@ func (g *Gen) Scalar(inObject bool) *Node {
 			}
 			unit := "a"
 			if rng.IntN(4) == 0 {
-				unit = pick(rng, []string{"é", "€", "😀", "я"})
+				unit = pick(rng, []string{"é", "€", "😀", "я", "e\u0301", "\u200d", "𝒳"})
 			}
 			n.Lit = Q(strings.Repeat(unit, ln))
 			if rng.IntN(2) == 0 {
@@ -605,9 +619,20 @@ func (g *Gen) Object(depth int, inObject bool) *Node {
 	g.nodes++
 	n := Obj()
 	cnt := rng.IntN(5)
+	wide := g.wideObj > 0
+	if wide {
+		cnt, g.wideObj = g.wideObj, 0
+	}
 	usedKeys := map[string]bool{}
 	for i := 0; i < cnt; i++ {
-		c := g.Value(depth-1, true)
+		var c *Node
+		if wide && i%8 != 3 {
+			g.calm = true
+			c = g.Scalar(true)
+			g.calm = g.baseCalm
+		} else {
+			c = g.Value(depth-1, true)
+		}
 		key := g.randKey(i)
 		if usedKeys[key] {
 			key += "_"
@@ -654,8 +679,18 @@ func (g *Gen) Array(depth int, inObject bool) *Node {
 	g.nodes++
 	n := Arr()
 	cnt := rng.IntN(4)
+	wide := g.wideArr > 0
+	if wide {
+		cnt, g.wideArr = g.wideArr, 0
+	}
 	for i := 0; i < cnt; i++ {
-		n.Children = append(n.Children, g.Value(depth-1, false))
+		if wide && i%8 != 3 {
+			g.calm = true
+			n.Children = append(n.Children, g.Scalar(false))
+			g.calm = g.baseCalm
+		} else {
+			n.Children = append(n.Children, g.Value(depth-1, false))
+		}
 	}
 	if cnt > 0 || rng.IntN(2) == 0 {
 		switch rng.IntN(6) {
@@ -686,10 +721,22 @@ func (g *Gen) Array(depth int, inObject bool) *Node {
 func GenProject(rng *rand.Rand, valueFocus, exotic bool) *Project {
 	p := &Project{}
 	g := &Gen{Rng: rng, ValueFocus: valueFocus, AllowExotic: exotic, MaxNodes: 14}
+	// one project in twelve is "big" in one dimension: sizes around the usual thresholds (8, 16, 32, 64, 128, 256
+	// members / items / enum entries / types / characters) or a deep chain of containers
+	big := -1
+	if rng.IntN(12) == 0 {
+		big = rng.IntN(6)
+	}
+	bigSize := pick(rng, []int{9, 15, 16, 17, 31, 33, 63, 65, 127, 129, 255, 257})
+	bigCalm := big >= 0 && rng.IntN(4) != 0 // most big projects keep their scalars plain, so that they are usually accepted
+	g.calm, g.baseCalm = bigCalm, bigCalm
 	// enums
 	for i, n := 0, rng.IntN(3); i < n; i++ {
 		name := fmt.Sprintf("@e%d", i)
 		cnt := 1 + rng.IntN(4)
+		if big == 4 && i == 0 {
+			cnt = bigSize
+		}
 		seen := map[string]bool{}
 		var items []string
 		for len(items) < cnt {
@@ -704,6 +751,9 @@ func GenProject(rng *rand.Rand, valueFocus, exotic bool) *Project {
 	}
 	// user types: scalars with rules, objects, arrays, aliases, regexes
 	nt := rng.IntN(5)
+	if big == 3 {
+		nt = pick(rng, []int{9, 10, 11, 17, 33})
+	}
 	for i := 0; i < nt; i++ {
 		name := fmt.Sprintf("@t%d", i)
 		g.nodes = 0
@@ -732,7 +782,42 @@ func GenProject(rng *rand.Rand, valueFocus, exotic bool) *Project {
 		g.Types = append(g.Types, TypeInfo{Name: name, Kind: node.Kind})
 	}
 	g.nodes = 0
-	p.Root = g.Value(2+rng.IntN(2), false)
+	switch big {
+	case 0:
+		g.wideObj = bigSize
+		p.Root = g.Object(1, false)
+	case 1:
+		g.wideArr = bigSize
+		p.Root = g.Array(1, false)
+	case 2: // a chain of containers 4..9 deep around an ordinary value
+		g.MaxNodes = 30
+		inner := g.Value(2, false)
+		for d := 4 + rng.IntN(6); d > 0; d-- {
+			if rng.IntN(2) == 0 {
+				dropRule(inner, "optional")
+				inner = Arr(inner)
+			} else {
+				inner = Obj(inner.K(g.randKey(0)), g.Scalar(true).K(g.randKey(1)))
+			}
+		}
+		p.Root = inner
+	case 5: // a long string around the usual buffer sizes, with a length rule next to its length
+		unit := pick(rng, []string{"a", "ab", "é", "€", "😀", "x y"})
+		cnt := bigSize * pick(rng, []int{1, 2, 4, 16})
+		n := Str(strings.Repeat(unit, cnt))
+		chars := cnt * len([]rune(unit))
+		switch rng.IntN(4) {
+		case 0:
+			n.R("maxLength", strconv.Itoa(chars+rng.IntN(2)))
+		case 1:
+			n.R("minLength", strconv.Itoa(chars-rng.IntN(2)))
+		case 2:
+			n.R("minLength", strconv.Itoa(chars)).R("maxLength", strconv.Itoa(chars))
+		}
+		p.Root = n
+	default:
+		p.Root = g.Value(2+rng.IntN(2), false)
+	}
 	dropRule(p.Root, "optional")
 	return p
 }
